@@ -36,9 +36,11 @@ type World struct {
 	Root, I1, I2, P *pki.Node
 	PFull           *pki.Node // pre-issuer whose authority key identifier carries issuer name and serial too
 	Subs            map[string]*Sub
-	Env             *ctfeenv.Env
+	Env             *ctfeenv.Env            // the first front end ("A")
+	FEs             map[string]*ctfeenv.Env // all front ends of the log: same backend, same key, own clock and signer device
 	Base            time.Time
 	rng             *mrand.Rand
+	dir             string
 }
 
 // Shapes a submission can take.
@@ -109,8 +111,38 @@ func NewWorld(dir string, ids []string, pre map[string]bool, logKeyType string, 
 		return nil, err
 	}
 	w.Env = env
+	w.FEs = map[string]*ctfeenv.Env{"A": env}
+	w.dir = dir
 	w.Base = env.Clock.Now()
 	return w, nil
+}
+
+// FE returns the named front end of the log, building it on first use: another real ctfe.Instance over the same
+// backend with the same log key and roots, its own clock (starting at the base time) and its own signer device.
+func (w *World) FE(name string) (*ctfeenv.Env, error) {
+	if name == "" {
+		name = "A"
+	}
+	if e, ok := w.FEs[name]; ok {
+		return e, nil
+	}
+	o := w.Env.Opts
+	o.Clock = &ctfeenv.Clock{}
+	o.Clock.Set(w.Base)
+	o.Backend = w.Env.Backend
+	o.LogKey = w.Env.LogKey
+	e, err := ctfeenv.New(o)
+	if err != nil {
+		return nil, err
+	}
+	w.FEs[name] = e
+	return e, nil
+}
+
+// SetTickFE moves the clock of one front end to a tick (forward or backward) plus a sub-millisecond fraction.
+func (w *World) SetTickFE(e *ctfeenv.Env, tick int) {
+	frac := []time.Duration{0, 1, 999999, 500000}[w.rng.Intn(4)]
+	e.Clock.Set(w.Base.Add(time.Duration(tick)*time.Second + frac))
 }
 
 // Ms maps a tick of the specification to the millisecond timestamp the implementation must use.
